@@ -76,6 +76,12 @@ def stepSim (rcvT sndT : Nat) (sm : Sim) (tok : String) : Sim :=
 
 def handle (inp out : String) : String :=
   match words inp with
+  | ["hrecv", pieces] =>
+    -- the HTTP client's reply buffer is the concatenation of the pieces, each taken whole
+    let ps := (pieces.splitOn ".").map fun p => (ofHex p).getD []
+    let want := s!"{".".intercalate (ps.map fun p => toString p.length)} {toHex ps.flatten}"
+    if want == out then s!"ok hrecv:{ps.length}-pieces:{if ps.flatten.length > 255 then "long" else "short"}"
+    else s!"specfail hrecv reply-put-together-from-{ps.length}-pieces-is-not-their-concatenation"
   | ["async", cache, rcvT, sndT, steps] =>
     match cache.toNat?, rcvT.toNat?, sndT.toNat? with
     | some c, some r, some sn =>
